@@ -62,7 +62,8 @@ def width_cases(draw):
     w = draw(st.sampled_from(list(range(1, m + 4))))
     cfg = {"workers": w, "scheduler": draw(st.sampled_from(["default", "random", None])), "rseed": draw(st.integers(0, 999))}
     if use_reg and draw(st.booleans()):
-        cfg["stale_workers"] = draw(st.integers(1, 4))
+        # mostly below max_workers: that is where the separate limit is observable
+        cfg["stale_workers"] = draw(st.integers(1, max(1, w - 1))) if draw(st.integers(0, 3)) else draw(st.integers(1, 4))
     spec = {"nodes": g.nodes, "output": common.all_refs_output({"nodes": g.nodes})}
     return {"fam": "width", "spec": spec, "cfg": cfg, "m": m, "registry": use_reg,
             "sched": draw(harness.schedules(real_share=10))}
